@@ -1046,6 +1046,11 @@ impl Machine {
                         self.hs[h] = None;
                         out.s("ok");
                     }
+                    // the real-engine wasm runner is linked against a code-less core (no integer formatting tables): it
+                    // cannot run `Debug`; the harness treats `*unobserved*` as "this executor does not observe this op"
+                    #[cfg(hh_nodewasm)]
+                    _ => out.s("*unobserved*"),
+                    #[cfg(not(hh_nodewasm))]
                     _ => {
                         let mut fb: FixedBuf<4096> = FixedBuf::new();
                         if op == b"debugx" {
